@@ -291,12 +291,30 @@ class Runner:
             c = sim.copy(what)
         elif how == 'dict':
             c = emg3d.Simulation.from_dict(sim.to_dict(what, True))
+        elif how == 'dictref':
+            # to_dict without deep copy: input arrays are shared by design,
+            # so no in-place edits here, only public operations on the new
+            # simulation (clean, model replacement, compute).
+            c = emg3d.Simulation.from_dict(sim.to_dict(what))
         else:
             d = _tmpdir()
             self.dirs.append(d)
             fn = os.path.join(d, 'fork.'+how)
             sim.to_file(fn, what=what, verb=0)
             c = emg3d.Simulation.from_file(fn, verb=0)
+        if how == 'dictref':
+            if not c.file_dir:
+                c.clean('computed')
+                other = 'B' if self.variant == 'A' else 'A'
+                c.model = self.prob['models'][other].copy()
+                c.compute()
+                c.clean('all')
+        else:
+            self._mutate(c)
+        self._unaffected(sim, how, what, before_syn, before_obs, before_px,
+                         before_m, before_g, e0)
+
+    def _mutate(self, c):
         # mutate the copy in every way
         c.model.property_x[...] *= 3.0
         c.survey.data.observed.data[...] *= 2.0
@@ -310,6 +328,8 @@ class Runner:
         if not c.file_dir:
             c.clean('all')
 
+    def _unaffected(self, sim, how, what, before_syn, before_obs, before_px,
+                    before_m, before_g, e0):
         def same(a, b):
             return np.array_equal(a, b, equal_nan=True)
         bad = []
@@ -413,7 +433,7 @@ class HistoryMachine(RuleBasedStateMachine):
     def model(self, clean):
         self._do('model', clean)
 
-    @rule(how=st.sampled_from(['copy', 'dict'] + FORMATS),
+    @rule(how=st.sampled_from(['copy', 'dict', 'dictref'] + FORMATS),
           what=st.sampled_from(WHATS_STORE))
     def fork(self, how, what):
         self._do('fork', how, what)
